@@ -832,7 +832,9 @@ pub fn run_many(driver: Driver) {
                     let mut g = c.borrow_mut();
                     match g.as_mut() {
                         Some(core) => {
-                            core.abort = Some(if t.starts_with("deadlock!") {
+                            core.abort = Some(if core.steps > core.params.max_steps {
+                                Status::StepCap
+                            } else if t.starts_with("deadlock!") {
                                 let mut blocked = vec![];
                                 for (i, n) in core.names.iter().enumerate() {
                                     if !core.finished[i] && Some(i) != core.clock_task {
@@ -875,4 +877,17 @@ pub fn run_once(prefix: Vec<Point>, order: Order, params: EnvParams, body: Body)
     }));
     let r = out.borrow_mut().take();
     r.expect("execution produced no result")
+}
+
+thread_local! {
+    static DEADLINE: std::cell::Cell<Option<std::time::Instant>> = const { std::cell::Cell::new(None) };
+}
+
+/// Wall-clock deadline of the exploration in progress (for enumerations inside one execution).
+pub fn set_deadline(d: Option<std::time::Instant>) {
+    DEADLINE.with(|c| c.set(d));
+}
+
+pub fn deadline_passed() -> bool {
+    DEADLINE.with(|c| c.get()).map(|d| std::time::Instant::now() > d).unwrap_or(false)
 }
